@@ -610,6 +610,7 @@ def run(ctx):
     ctx.gate()
     ctx.ensure_theories(['theories/C15/Props.vo'])
     theorems_parallel(ctx, 'OdakV.C15.Props', PROPS)
+    if ctx.thorough: ctx.coqchk('OdakV.C15.Props')
     try:
         g = recipe.trace()
         ctx.programs = len(g.defs)
